@@ -1,7 +1,7 @@
 import HcModel.Handover
 /-
-  Driver op for the hand-over model:  handover run <fixed 0|1> <op> …   op := readStart | setCrypt | writeResp | peerSends | readDone
-  Answer: `resp=<plain|enc|none> delivered=<dec|plain|none>`
+  Driver op for the hand-over model:  handover run <version 0|1|2> <op> …   op := readStart | setCrypt | writeResp | peerSends | readDone
+  Answer: `resp=<plain|enc|none> delivered=<dec|plain|none> closed=<0|1> foreign=<0|1>`   (version 0: original code, 1: after the F18 repair, 2: after F18 and F19)
 -/
 namespace Hc.Drv.Handover
 open Hc.Handover
@@ -12,6 +12,8 @@ def pOp : String → Option Op
   | "writeResp" => some .writeResp
   | "peerSends" => some .peerSends
   | "readDone" => some .readDone
+  | "excess" => some .excess
+  | "foreign" => some .foreign
   | _ => none
 
 def handle : List String → String
@@ -19,10 +21,10 @@ def handle : List String → String
     match ops.mapM pOp with
     | none => "bad-op"
     | some os =>
-      let s := run (f == "1") os
+      let s := run (f != "0") (f == "2") os
       let r := match s.respEncrypted with | none => "none" | some true => "enc" | some false => "plain"
       let d := match s.delivered with | none => "none" | some true => "dec" | some false => "plain"
-      s!"resp={r} delivered={d}"
+      s!"resp={r} delivered={d} closed={if s.closed then 1 else 0} foreign={if s.foreignPlain then 1 else 0}"
   | _ => "bad-op"
 
 end Hc.Drv.Handover
